@@ -83,7 +83,8 @@ def build(spec):
         return W.KaiserWaveform(spec["d"], spec["area"], spec["beta"])
     if c == "interp":
         return W.InterpolatedWaveform(spec["d"], spec["values"], times=spec.get("times"),
-                                      interpolator=spec.get("interpolator", "PchipInterpolator"))
+                                      interpolator=spec.get("interpolator", "PchipInterpolator"),
+                                      **spec.get("kwargs", {}))
     if c == "composite":
         return W.CompositeWaveform(*[build(p) for p in spec["parts"]])
     raise InfraError(f"bad spec {spec}")
@@ -322,7 +323,10 @@ def mon_values(spec, w) -> list[Fail]:
                                 dict(small_values=bool(small))))
                 break
         spans = times.min() == 0 and times.max() == 1
-        if spans and (np.min(s) < vals.min() - tol or np.max(s) > vals.max() + tol):
+        # (PCHIP and the piecewise linear / constant kinds of interp1d stay between the data values; a
+        # quadratic or cubic spline may legitimately overshoot them)
+        bounded = spec.get("kwargs", {}).get("kind", "linear") in ("linear", "nearest", "previous")
+        if spans and bounded and (np.min(s) < vals.min() - tol or np.max(s) > vals.max() + tol):
             out.append(Fail("interp-overshoot", f"samples leave [{vals.min()}, {vals.max()}]"))
     return out
 
@@ -969,8 +973,15 @@ def gen_leaf(rng, cls, d) -> dict:
             times = [0.0] + inner + [1.0]
             values = values[: len(times)] + [val(rng)] * max(0, len(times) - len(values))
             values = values[: len(times)]
-        return dict(c="interp", d=d, values=values, times=times,
+        spec = dict(c="interp", d=d, values=values, times=times,
                     interpolator=rng.choice(["PchipInterpolator", "PchipInterpolator", "interp1d"]))
+        if spec["interpolator"] == "interp1d" and rng.random() < 0.5:
+            # options handed through to the interpolator are defining parameters too (they must survive
+            # scaling and change_duration — seeded change C16-interp-change-duration-drops-kwargs)
+            kinds = ["linear", "nearest", "previous"] + (["quadratic"] if len(values) >= 3 else []) + \
+                (["cubic"] if len(values) >= 4 else [])
+            spec["kwargs"] = dict(kind=rng.choice(kinds))
+        return spec
     raise InfraError(cls)
 
 
